@@ -4,11 +4,15 @@ CONSTANT Pick1 = 0
 CONSTANT Mod2 = 1000
 CONSTANT Pick2 = 0
 CONSTANT ExportMod = 16
+CONSTANT Mod3 = 2
+CONSTANT Pick3 = 0
 SPECIFICATION Spec
 INVARIANT BuildAgrees
 INVARIANT ApplyAgrees
 INVARIANT KeyTyped
 INVARIANT KeyMismatch
 INVARIANT Laws
+INVARIANT PresentationFree
 INVARIANT Export
+INVARIANT ExportForms
 CHECK_DEADLOCK FALSE
